@@ -738,6 +738,37 @@ func runJoinCase(t *rapid.T, spec joinSpec) {
 			e.h("service del %s", k)
 		}
 	}
+	// a source disappears and later reappears unchanged (its dependants untouched in between)
+	var parked []workload
+	ops["srcReappear"] = func(t *rapid.T) {
+		if len(parked) > 0 && rapid.Bool().Draw(t, "bringBack") {
+			w := parked[len(parked)-1]
+			parked = parked[:len(parked)-1]
+			if _, exists := e.srcState[w.NS+"/"+w.Name]; exists {
+				t.Skip("name taken meanwhile")
+			}
+			e.srcState[w.NS+"/"+w.Name] = w
+			e.src.putObj(workloadObject(spec.srcKind, w))
+			e.h("source reappears unchanged: %s", w)
+			if rapid.IntRange(0, 2).Draw(t, "checkNow") > 0 {
+				e.check("after a source reappeared")
+			}
+			return
+		}
+		if len(e.srcState) == 0 {
+			t.Skip("no source")
+		}
+		k := rapid.SampledFrom(sortedWorkloadKeys(e.srcState)).Draw(t, "srckey")
+		w := e.srcState[k]
+		delete(e.srcState, k)
+		e.src.del(w.NS, w.Name)
+		parked = append(parked, w)
+		e.h("source disappears (to reappear later): %s", k)
+		srcRemoved = true
+		if rapid.Bool().Draw(t, "checkGone") {
+			e.check("after a source disappeared")
+		}
+	}
 	ops["check"] = func(t *rapid.T) { e.check("check") }
 	baseline := -1
 	ops["cycle"] = func(t *rapid.T) {
@@ -837,7 +868,8 @@ func sortedWorkloadKeys(m map[string]workload) []string {
 func TestC09_Joins(t *testing.T) {
 	only := onlyCase()
 	rapid.Check(t, func(t *rapid.T) {
-		spec := rapid.SampledFrom(joinSpecs).Draw(t, "join")
+		// the double join has the most moving parts: drawn three times as often as each single join
+		spec := rapid.SampledFrom(append(append([]joinSpec{}, joinSpecs...), joinSpecs[len(joinSpecs)-1], joinSpecs[len(joinSpecs)-1])).Draw(t, "join")
 		if only != "" {
 			for _, s := range joinSpecs {
 				if s.name == only {
